@@ -147,11 +147,17 @@ def decodeStringOrNumberList : Val → Option Val
   | .seq l => some (.seq (l.map fun e => .str (sprint e)))
   | _ => none
 
-/-- `HealthCheckTest`: a non-string list element is a panic (`e.(string)`), reported as `.null` here and mapped by the handler -/
+/-- `HealthCheckTest`: a non-string list element is an error -/
 def decodeHealthTest : Val → Option Val
   | .str s => some (.seq [.str "CMD-SHELL", .str s])
-  | .seq l => match allStrs l with | some r => some (.seq r) | none => some .null
+  | .seq l => (allStrs l).map .seq
   | _ => none
+
+/-- `ShellCommand`, list form (the string form goes through go-shellwords, outside the model): a non-string element is
+an error; any other kind is accepted and leaves the command unset (`.null`) -/
+def decodeShellCommandList : Val → Option Val
+  | .seq l => (allStrs l).map .seq
+  | _ => some .null
 
 def decodeDeviceCount : Val → Option Val
   | .int i => some (.int i)
@@ -170,7 +176,7 @@ def decodeDeviceCount : Val → Option Val
       | none => none
   | _ => none
 
-/-- `UlimitsConfig`: `.null` = panic (`soft.(int)`) -/
+/-- `UlimitsConfig`: soft / hard of a non-integer kind is an error -/
 def decodeUlimit : Val → Option Val
   | .int i => some (.map [("single", .int i), ("soft", .int 0), ("hard", .int 0)])
   | .map m =>
@@ -180,7 +186,7 @@ def decodeUlimit : Val → Option Val
       | some _ => none
     match get "soft", get "hard" with
     | some s, some h => some (.map [("single", .int 0), ("soft", s), ("hard", h)])
-    | _, _ => some .null
+    | _, _ => none
   | _ => none
 
 end CV.Short
